@@ -1208,7 +1208,10 @@ OBLIGATIONS = {
             ("core", "InitialExpr::replace_inner_exprs"), ("core", "ActionExpr::replace_inner_exprs"),
             ("gen", "JoinOutput::expand_process_expr"), ("gen", "JoinOutput::generate_def_and_step_streams"),
             # an initial value that binds looser than `.method()` is parenthesised (fix 0941b1e)
-            ("gen", "is_lower_precedence_than_method_call")],
+            ("gen", "is_lower_precedence_than_method_call"),
+            # in the async kinds the emitted method names get their documented meaning from the four extension traits the
+            # expansion brings into scope (`use futures::{FutureExt, TryFutureExt, StreamExt, TryStreamExt}`)
+            ("top", "JoinOutput::to_tokens")],
     "C02": [("gen", "lemma_split_balance"), ("gen", "lemma_accepted_chain_never_underflows"), ("gen", "lemma_split_members"), ("gen", "lemma_accepted_branch"), ("builder", "lemma_member_ok"), ("gen", "JoinOutput::split_branch_steps"), ("gen", "JoinOutput::generate_step_branch"), ("parse", "ActionGroup::parse_stream"), ("parse", "parse_until_suffix"), ("parse", "lemma_wrapper_frame"), ("builder", "ActionExprChainBuilder::build_from_parse_stream"), ("gen", "JoinOutput::wrap_last_step_stream"), ("gen", "JoinOutput::process_step_action_expr"),
             ("gen", "lemma_step_toks1"), ("core", "Combinator::can_be_wrapper"), ("core", "ActionGroup::to_wrapper_action_expr"),
             ("core", "ProcessExpr::replace_inner_exprs"), ("core", "ErrExpr::replace_inner_exprs"),
